@@ -746,6 +746,123 @@ func earlyReturn(id string, seed uint64) runner.Result {
 	return res
 }
 
+// errorBehindFlushedAnswers: a server with manual flushing on a transport without buffering. The
+// handler answers and flushes, reads one request, answers again (that one stays in the writer) and
+// fails with a coded error while the client, which receives only after it has sent everything, is
+// still sending. The client must get the flushed answers, the buffered ones, then exactly the error,
+// and the connection must serve the next call.
+func errorBehindFlushedAnswers(id string, seed uint64) runner.Result {
+	r := &payload.SplitMix{S: seed}
+	cfg := prog.GenConfig(r, false)
+	rendezvous := r.Intn(4) != 0
+	if rendezvous {
+		cfg.Net.Cap = 0
+	} else if cfg.Net.Cap == 0 {
+		cfg.Net.Cap = -1
+	}
+	cfg.Server.Stream.ManualFlush = true
+	cfg.Client.Stream.ManualFlush = false
+	// the answers sent after the flush have to fit the writer: a handler whose own send goes to a transport
+	// nobody reads from is held up by flow control, not by the library
+	cfg.Server.WriterBufferSize = 1 << 16
+	// one flushed answer: it sits in the client's single receive slot until the client gets round to receiving;
+	// a second one would wait for that, and the handler with it, before it has read anything (flow control again)
+	nflushed, nbuffered, nsend := 1, 1+r.Intn(3), 2+r.Intn(4)
+	code := uint64(1 + r.Intn(90))
+	text := fmt.Sprintf("boom-%d: quota exceeded", r.Intn(1000))
+	handler := rig.HandlerFunc(func(stream drpc.Stream, rpc string) error {
+		if rpc == "/probe" {
+			var m Msg
+			if err := stream.MsgRecv(&m, enc{}); err != nil {
+				return err
+			}
+			return stream.MsgSend(&Msg{B: []byte("probe-response")}, enc{})
+		}
+		k := 0
+		for i := 0; i < nflushed; i++ {
+			if err := stream.MsgSend(&Msg{B: payload.Make(1, 1, 0, uint32(k), 20)}, enc{}); err != nil {
+				return err
+			}
+			k++
+		}
+		if err := stream.(interface{ RawFlush() error }).RawFlush(); err != nil {
+			return err
+		}
+		var m Msg
+		if err := stream.MsgRecv(&m, enc{}); err != nil {
+			return err
+		}
+		for i := 0; i < nbuffered; i++ {
+			if err := stream.MsgSend(&Msg{B: payload.Make(1, 1, 0, uint32(k), 20)}, enc{}); err != nil {
+				return err
+			}
+			k++
+		}
+		return drpcerr.WithCode(errors.New(text), code)
+	})
+	rg := rig.New(rig.Config{Net: cfg.Net, Client: cfg.Client, Server: cfg.Server}, handler)
+	defer rg.Teardown()
+	desc := fmt.Sprintf("%s server-manual-flush | error-behind-flushed-answers rendezvous=%v: handler sends %d, flushes, reads 1, sends %d more, returns code %d %q; client sends %d, half-closes, then receives", cfg.Desc, rendezvous, nflushed, nbuffered, code, text, nsend)
+	var got []uint32
+	op := rig.Go("call", func() (interface{}, error) {
+		st, err := rg.Conn.NewStream(context.Background(), "/rpc", enc{})
+		if err != nil {
+			return nil, err
+		}
+		defer st.Close()
+		for i := 0; i < nsend; i++ {
+			if st.MsgSend(&Msg{B: payload.Make(1, 0, 0, uint32(i), 30)}, enc{}) != nil {
+				break
+			}
+		}
+		st.CloseSend()
+		for {
+			var m Msg
+			if err := st.MsgRecv(&m, enc{}); err != nil {
+				return nil, err
+			}
+			h, _ := payload.Parse(m.B)
+			got = append(got, h.Seq)
+		}
+	})
+	if !op.Wait() {
+		_, snap := census.Quiesce(rig.Watchdog)
+		return runner.Violation(id, "error-identity:call-never-returns-after-handler-error", desc+"\nthe handler has returned its error and the client call is still blocked with the whole process quiescent\n"+census.Dump(census.InDRPC(snap)))
+	}
+	var fails []string
+	want := nflushed + nbuffered
+	if len(got) != want {
+		fails = append(fails, fmt.Sprintf("the client received %d answers before the error, the handler had sent %d", len(got), want))
+	}
+	for i, s := range got {
+		if int(s) != i {
+			fails = append(fails, fmt.Sprintf("answer %d carries sequence number %d", i, s))
+		}
+	}
+	if op.Err == nil || op.Err.Error() != text || drpcerr.Code(op.Err) != code {
+		fails = append(fails, fmt.Sprintf("the client got error %s code %d, the handler returned %q code %d", rig.ErrStr(op.Err), drpcerr.Code(op.Err), text, code))
+	}
+	if len(fails) == 0 && !rig.IsClosed(rg.Conn.Closed()) {
+		var out Msg
+		probe := rig.Go("probe", func() (interface{}, error) {
+			return nil, rg.Conn.Invoke(context.Background(), "/probe", enc{}, &Msg{B: []byte("probe")}, &out)
+		})
+		if !probe.Wait() {
+			fails = append(fails, "probe RPC after the call did not return (connection not usable)")
+		} else if probe.Err != nil || string(out.B) != "probe-response" {
+			fails = append(fails, fmt.Sprintf("probe RPC after the call failed: err=%v", probe.Err))
+		}
+	} else if len(fails) == 0 {
+		fails = append(fails, "the connection is closed after a handler error")
+	}
+	if len(fails) > 0 {
+		return runner.Violation(id, "error-identity:error-behind-flushed-answers", desc+"\n"+strings.Join(fails, "\n"))
+	}
+	res := runner.Hold(id, desc, true)
+	res.Events = int64(nsend + want + 2)
+	return res
+}
+
 func gen(tier string, seed uint64) []runner.Scenario {
 	n := 250
 	if tier == "thorough" {
@@ -760,6 +877,10 @@ func gen(tier string, seed uint64) []runner.Scenario {
 		if i%25 == 0 {
 			id4 := fmt.Sprintf("shared-sentinel/%d", i)
 			out = append(out, runner.Scenario{ID: id4, Run: func() runner.Result { return sharedSentinel(id4, payload.Hash(seed, 0xC10C, uint64(i))) }})
+		}
+		if i%10 == 0 {
+			id5 := fmt.Sprintf("error-behind-flushed-answers/%d", i)
+			out = append(out, runner.Scenario{ID: id5, Run: func() runner.Result { return errorBehindFlushedAnswers(id5, payload.Hash(seed, 0xC10D, uint64(i))) }})
 		}
 		if i%5 == 0 {
 			id3 := fmt.Sprintf("early-return/%d", i)
